@@ -100,6 +100,9 @@ theorem applyAct_timer_stable (s : St) (nc : Option Id) (a : Act) (t : Id) (x : 
   case resume i => exact ofSame _ (resume_sameT s i)
   case read i => exact ofSame _ (read_sameT s i)
   case write i n o => exact ofSame _ (write_sameT s i n o)
+  case mkPair i => exact ofSame _ (mkPair_sameT s i)
+  case mkListener i => exact ofSame _ (mkListener_sameT s i)
+  case mkEst i => exact ofSame _ (mkEst_sameT s i)
 
 theorem runActs_timer_stable (s : St) (nc : Option Id) (acts : List Act) (t : Id) (x : Option TimerS)
     (hu : s.used t = true) (hx : s.timers t = x ∨ s.timers t = none) :
